@@ -18,6 +18,7 @@ import (
 	"net/http"
 	"net/http/httptest"
 	"os"
+	"runtime/debug"
 	"sort"
 	"strings"
 	"sync"
@@ -604,7 +605,7 @@ func roundTrip(m *msggen.Msg, kind string, orig, back *har.Entry) (out []finding
 			add("request_scalars", fmt.Sprintf("%v became %v", *a, *b))
 		}
 		if !equalHeaders(a.Headers, b.Headers) {
-			add("request_headers"+nonUTF8Headers(a.Headers), fmt.Sprintf("%q became %q", a.Headers, b.Headers))
+			add("request_headers"+nonUTF8Headers(a.Headers), fmt.Sprintf("%q became %q", headerStrings(a.Headers), headerStrings(b.Headers)))
 		}
 		if !equalCookies(cookieList(a.Cookies), cookieList(b.Cookies)) {
 			add("request_cookies", fmt.Sprintf("%v became %v", a.Cookies, b.Cookies))
@@ -656,7 +657,7 @@ func roundTrip(m *msggen.Msg, kind string, orig, back *har.Entry) (out []finding
 			add("response_scalars", fmt.Sprintf("status/version/redirect changed: %d %q %q became %d %q %q", a.Status, a.HTTPVersion, a.RedirectURL, b.Status, b.HTTPVersion, b.RedirectURL))
 		}
 		if !equalHeaders(a.Headers, b.Headers) {
-			add("response_headers"+nonUTF8Headers(a.Headers), fmt.Sprintf("%q became %q", a.Headers, b.Headers))
+			add("response_headers"+nonUTF8Headers(a.Headers), fmt.Sprintf("%q became %q", headerStrings(a.Headers), headerStrings(b.Headers)))
 		}
 		if !equalCookies(cookieList(a.Cookies), cookieList(b.Cookies)) {
 			add("response_cookies", fmt.Sprintf("%v became %v", a.Cookies, b.Cookies))
@@ -696,13 +697,16 @@ func firstParamDiff(a, b []har.Param) string {
 
 func main() {
 	mlog.SetLevel(mlog.Silent)
+	// the live heap is a few messages and their JSON per worker; collecting less often saves time
+	debug.SetGCPercent(400)
+	debug.SetMemoryLimit(3 << 30)
 	rep := lib.NewReport("C16", "model_checking")
 	tier := lib.Tier()
 	// quick: every size class up to one bufio buffer with every chunk list, the two large classes with the
 	// quick chunk lists; thorough: everything with everything
 	body := append(msggen.BodySpaceOf(quickSmallSizes, msggen.ChunkingsThorough), msggen.BodySpaceOf(quickLargeSizes, msggen.ChunkingsQuick)...)
 	if tier == "thorough" {
-		body = msggen.BodySpaceOf(msggen.SizesWideThorough, msggen.ChunkingsThorough)
+		body = msggen.BodySpaceOf(msggen.SizesThorough, msggen.ChunkingsThorough)
 	}
 	nBody := len(body)
 	specs := append(body, msggen.HeaderSpace("thorough")...)
@@ -930,7 +934,7 @@ var (
 
 func sizesFor(tier string) []int {
 	if tier == "thorough" {
-		return msggen.SizesWideThorough
+		return msggen.SizesThorough
 	}
 	return append(append([]int{}, quickSmallSizes...), quickLargeSizes...)
 }
